@@ -12,6 +12,7 @@ import SpVerif.Ops.Tlv
 import SpVerif.Ops.Parser
 import SpVerif.Ops.Uslp
 import SpVerif.Ops.Verificator
+import SpVerif.Ops.MsgToUser
 /-!
 # Line-protocol driver: one JSON object per input line (`{"op": …, …}`), one JSON result per output line.
 `{"ok": …}` / `{"err": "<category>"}` are model results; `{"bad": "<msg>"}` is a protocol error.
@@ -33,6 +34,7 @@ def allOps : List (String × Handler) := []
   ++ Ops.Parser.ops
   ++ Ops.Uslp.ops
   ++ Ops.Verificator.ops
+  ++ Ops.MsgToUser.ops
 
 def table : Std.HashMap String Handler := Std.HashMap.ofList allOps
 
